@@ -64,6 +64,8 @@ class B:
                 out.append(t['else'])
         if unwind and t.get('u') is not None:
             out.append(t['u'])
+        # edges into `unreachable` blocks (the impossible arm of an exhaustive match) are not control flow
+        out = [s for s in out if self.blocks[s]['t']['k'] != 'unreachable']
         self._succ[key] = out
         return out
 
